@@ -65,6 +65,18 @@ def universe():
     for f in files[::9]:
         for cfg in ("align_a", "skip1", "caseonly"):
             jobs.append((f, cfg, ""))
+    for name in sorted(designs.all_designs()):
+        jobs.append(("gen:" + name, "use_indent", ""))
+    # the configurations the documentation shows (every YAML/JSON configuration block of docs/*.rst): all generated designs,
+    # and a fixed slice of the corpus
+    from bounded import docconfigs
+
+    docs = sorted(docconfigs.harvest(corpus.REPO))
+    for cfg in docs:
+        for name in sorted(designs.all_designs()):
+            jobs.append(("gen:" + name, cfg, ""))
+    for i, f in enumerate(files[::23]):
+        jobs.append((f, docs[i % len(docs)], ""))
     for f in files:
         jobs.append((f, "default", "split"))
     return jobs
@@ -81,7 +93,16 @@ def plan(tier, seed):
     out = []
     for key, n in ((("default", ""), 110), (("jcl", ""), 14), (("upper", ""), 14), (("default", "pre"), 24), (("default", "comments"), 24), (("default", "split"), 24), (("align_a", ""), 8), (("skip1", ""), 8), (("caseonly", ""), 8)):
         out.extend(r.sample([j for j in by[key] if not j[0].startswith("gen:")], n))
-    out.extend(j for j in uni if j[0].startswith("gen:"))
+    # generated designs: all of them under the hand-written configurations; under the documented configurations a seeded six each
+    gen = [j for j in uni if j[0].startswith("gen:")]
+    out.extend(j for j in gen if not j[1].startswith("doc:"))
+    bydoc = {}
+    for j in gen:
+        if j[1].startswith("doc:"):
+            bydoc.setdefault(j[1], []).append(j)
+    for cfg in sorted(bydoc):
+        out.extend(r.sample(bydoc[cfg], 6))
+    out.extend(r.sample([j for j in uni if j[1].startswith("doc:") and not j[0].startswith("gen:")], 12))
     return sorted(out)
 
 
